@@ -88,6 +88,11 @@ func (jenny Schema) GenerateSchema(context languages.Context, schema *ast.Schema
 		jenny.foreignObjects = orderedmap.New[string, ast.Object]()
 
 		foreignObjects.Iterate(func(_ string, foreignObject ast.Object) {
+			// already described: foreign objects can refer to each other
+			if definitions.Has(foreignObject.Name) {
+				return
+			}
+
 			definitions.Set(foreignObject.Name, jenny.objectToDefinition(foreignObject))
 		})
 	}
